@@ -47,6 +47,8 @@ if is_example:
     os.makedirs(VW + "/examples", exist_ok=True)
     shutil.copy(demo, VW + "/examples/seed_demo.rs")
     demo_cmd = "cargo run --offline --example seed_demo"
+    if prop.startswith("C13"):
+        demo_cmd = "cargo build --offline --example seed_demo"
 else:
     shutil.copy(demo, VW + "/tests/seed_demo.rs")
     demo_cmd = "cargo test --offline --test seed_demo"
@@ -81,6 +83,10 @@ if rc3 == 0 and not is_example:
         rc3 = 0  # fails under miri even without the change: not a demonstration
 sh("git checkout -- . && git clean -fdq -e target", cwd=VW)
 valid = rc0 == 0 and rc1 == 0 and rc2 == 0 and rc3 != 0
+if prop.startswith("C13"):
+    # type-level property: the demonstration is a client program that must NOT compile on a correct
+    # tree and does compile (and misbehaves) with the change
+    valid = rc0 != 0 and rc1 == 0 and rc2 == 0 and ("error[E" in out0) and ("error[E" not in out3)
 meta["valid"] = valid
 print("valid=%s  demo without patch rc=%d, repo tests with patch lib=%d doc=%d, demo with patch rc=%d" % (valid, rc0, rc1, rc2, rc3))
 
